@@ -19,6 +19,7 @@ from typing import Any
 import falcon
 
 from .._common import (
+    _ARROW_CONTENT_TYPE,
     _ERROR_PAGE_STYLE,
     _FONT_IMPORTS,
     _VGI_LOGO_HTML,
@@ -26,6 +27,7 @@ from .._common import (
     AUTH_REASON_HEADER,
 )
 from .._unauthorized import AuthReason
+from ._responses import _error_response_stream
 
 _NOT_FOUND_HTML_TEMPLATE = (
     """\
@@ -151,17 +153,28 @@ def _wants_html(req: falcon.Request) -> bool:
     return "text/html" in (req.get_header("Accept") or "")
 
 
-def _make_error_serializer(proxy_hint: str = "") -> Callable[[falcon.Request, falcon.Response, falcon.HTTPError], None]:
+def _is_rpc_request(req: falcon.Request) -> bool:
+    """Whether *req* speaks the RPC wire format (an Arrow IPC ``POST``)."""
+    return req.method == "POST" and (req.content_type or "") == _ARROW_CONTENT_TYPE
+
+
+def _make_error_serializer(
+    proxy_hint: str = "", server_id: str | None = None
+) -> Callable[[falcon.Request, falcon.Response, falcon.HTTPError], None]:
     """Build the Falcon error serializer for one app.
 
-    Only ``HTTPUnauthorized`` (401) is given the standardized treatment; every
-    other error falls back to Falcon's default JSON serialization.
+    ``HTTPUnauthorized`` (401) is given the standardized treatment.  Any other
+    4xx raised for an RPC request (by the request-size and content-decoding
+    middleware: 400, 413) carries an Arrow IPC error stream like every error
+    the resources produce themselves; 415 and errors on non-RPC requests keep
+    Falcon's default JSON serialization.
 
     Args:
         proxy_hint: The app's static proxy-configuration note, or ``""`` when
             its authentication does not depend on a reverse proxy. Fixed for
             the life of the app — see :mod:`vgi_rpc.http._unauthorized` for
             why it is not derived per request.
+        server_id: Server identifier stamped on Arrow error batches.
 
     Returns:
         A serializer suitable for ``falcon.App.set_error_serializer``.
@@ -173,6 +186,14 @@ def _make_error_serializer(proxy_hint: str = "") -> Callable[[falcon.Request, fa
     def _serialize(req: falcon.Request, resp: falcon.Response, exc: falcon.HTTPError) -> None:
         """Serialize one Falcon error onto the response."""
         if not isinstance(exc, falcon.HTTPUnauthorized):
+            if _is_rpc_request(req) and 400 <= exc.status_code < 500 and exc.status_code != 415:
+                # The wire protocol promises a decodable error batch on every
+                # 400/413; the client raises it as a typed RpcError instead of
+                # choking on JSON where it expects an IPC stream.
+                detail = ": ".join(part for part in (exc.title, exc.description) if part)
+                resp.content_type = _ARROW_CONTENT_TYPE
+                resp.data = _error_response_stream(ValueError(detail), server_id=server_id).getvalue()
+                return
             resp.content_type = falcon.MEDIA_JSON
             resp.data = exc.to_json()
             return
